@@ -338,7 +338,12 @@ func (ex *Exec) sentinel(g *ssa.Global) *Term {
 	if !types.Identical(pt, types.Universe.Lookup("error").Type()) {
 		return nil
 	}
-	name := g.Pkg.Pkg.Name() + "." + g.Name()
+	return ex.sentinelByName(g.Pkg.Pkg.Name() + "." + g.Name())
+}
+
+// sentinelByName: the package-level error variable <pkgname>.<Var> (also nameable from a contract of a package that
+// does not import it: errvar("pkg.Var")).
+func (ex *Exec) sentinelByName(name string) *Term {
 	if t, ok := ex.sentinels[name]; ok {
 		return t
 	}
